@@ -18,7 +18,9 @@ RULE = (
     'outside the data; scalar window widths from below the grid spacing to twice the range, or explicit windows '
     '(including empty and one-point windows); peak/background given as name, instance, list or tuple of either; '
     'default and randomised FitRequirements / neighbour-separation factors; a small stream of rejected inputs '
-    '(unsorted estimates, empty model lists). A case is non-trivial when at least one window reaches the optimiser '
+    '(unsorted estimates, empty model lists); remove_peaks additionally on constructed FitResult lists (1..6 results, first '
+    'success at every position, mixes of successful / failed / too-narrow / rejected results, overlapping and empty windows, '
+    'shuffled orders) passed as list, tuple, generator, iterator, reversed and a one-shot iterable. A case is non-trivial when at least one window reaches the optimiser '
     'or the point-count guard; distinct = distinct generator parameters.'
 )
 ASSUMPTIONS = [
@@ -63,6 +65,16 @@ SQRT2PI = math.sqrt(2 * math.pi)
 SQRT2LN2 = math.sqrt(2 * math.log(2))
 GFWHM = 2 * math.sqrt(2 * math.log(2))
 TINY = 1e-15
+
+
+
+def report(ctx, key, what, witness, cap=3):
+    """ctx.violation, capped per key so that a frequent class cannot crowd out another"""
+    n = sum(1 for v in ctx.violations if v['key'] == key)
+    if n < cap:
+        getattr(ctx, 'violation')(key, what, witness)
+    else:
+        ctx.count('violation:' + key)
 
 
 def bits(x) -> str:
@@ -556,6 +568,7 @@ def correspond(ctx):
             ctx.disagree(small(case), [(r['assessment'], r['model'], r['window']) for r in impl_rs],
                          out[:400], '; '.join(problems[:4]))
     correspond_remove(ctx, runs)
+    correspond_remove_suite(ctx, remove_cases(ctx))
     correspond_windows(ctx)
 
 
@@ -738,16 +751,16 @@ def oracle_case(ctx, case):
     admissible = not case.get('unsorted') and case['peak_spec']['kinds'] and case['bg_spec']['degs']
     if not admissible:
         if exc is None:
-            ctx.violation('C17:inadmissible-accepted', 'unsorted estimates or empty model list accepted', wit)
+            report(ctx, 'C17:inadmissible-accepted', 'unsorted estimates or empty model list accepted', wit)
         return
     ctx.case(('oracle', case['idx'], case['np_seed']), True)
     if exc is not None:
         key, what = classify_exception(exc, case, da, est, win, fp)
-        ctx.violation(key, what + f' [{type(exc).__name__}: {str(exc)[:120]}]', wit)
+        report(ctx, key, what + f' [{type(exc).__name__}: {str(exc)[:120]}]', wit)
         return
     nwin = len(est.values) if win.ndim == 0 else win.sizes['x']
     if len(results) != nwin or any(r is None for r in results):
-        ctx.violation('C17:result-count', f'{len(results)} results for {nwin} peaks', wit)
+        report(ctx, 'C17:result-count', f'{len(results)} results for {nwin} peaks', wit)
         return
     dmin, dmax = float(x[0]), float(x[-1])
     cs = est.values
@@ -761,22 +774,22 @@ def oracle_case(ctx, case):
         # --- order / windows
         if win.ndim != 0:
             if (bits(lo), bits(hi)) != (bits(win.values[i][0]), bits(win.values[i][1])):
-                ctx.violation('C17:result-order', f'result {i} carries window {(lo, hi)}, not window {i}', wit)
+                report(ctx, 'C17:result-order', f'result {i} carries window {(lo, hi)}, not window {i}', wit)
         else:
             c = float(cs[i])
             if not (dmin <= lo <= dmax and dmin <= hi <= dmax):
-                ctx.violation('C17:window-beyond-data-range', f'window {i} = {(lo, hi)} outside data range {(dmin, dmax)}', wit)
+                report(ctx, 'C17:window-beyond-data-range', f'window {i} = {(lo, hi)} outside data range {(dmin, dmax)}', wit)
             if dmin <= c <= dmax and not (lo <= c <= hi):
-                ctx.violation('C17:window-misses-estimate', f'window {i} = {(lo, hi)} does not contain estimate {c}', wit)
+                report(ctx, 'C17:window-misses-estimate', f'window {i} = {(lo, hi)} does not contain estimate {c}', wit)
             ulp = 8 * np.spacing(max(abs(lo), abs(hi), abs(c), 1e-300))
             if i > 0:
                 bound = min(float(cs[i - 1]) + (c - float(cs[i - 1])) * f, dmax)
                 if lo < bound - ulp:
-                    ctx.violation('C17:window-too-close-to-neighbour', f'left edge {lo} of window {i} below {bound}', wit)
+                    report(ctx, 'C17:window-too-close-to-neighbour', f'left edge {lo} of window {i} below {bound}', wit)
             if i + 1 < len(cs):
                 bound = max(float(cs[i + 1]) - (float(cs[i + 1]) - c) * f, dmin)
                 if hi > bound + ulp:
-                    ctx.violation('C17:window-too-close-to-neighbour', f'right edge {hi} of window {i} above {bound}', wit)
+                    report(ctx, 'C17:window-too-close-to-neighbour', f'right edge {hi} of window {i} above {bound}', wit)
         # --- data in the window (independent of scipp label slicing: half-open interval on the sorted coordinate)
         sel = (x >= lo) & (x < hi)
         xs, ys, vs = x[sel], da.values[sel], da.variances[sel]
@@ -792,22 +805,22 @@ def oracle_case(ctx, case):
                 break
         tried = [(s[3], s[4]) for s in mine]
         if tried != cands[:len(tried)]:
-            ctx.violation('C17:candidate-order', f'peak {i}: tried {tried}, product order is {cands}', wit)
+            report(ctx, 'C17:candidate-order', f'peak {i}: tried {tried}, product order is {cands}', wit)
         succ = [s for s in mine if s[5] == 'success']
         chosen = (PEAK_CODE[type(r.peak).__name__], r.background.degree, r.assessment.name)
         expect = (succ[0][3], succ[0][4], 'success') if succ else (mine[0][3], mine[0][4], mine[0][5]) if mine else None
         if expect is not None and chosen != expect:
-            ctx.violation('C17:first-success-wins', f'peak {i}: returned {chosen}, expected {expect} (tried {[(s[3], s[4], s[5]) for s in mine]})', wit)
+            report(ctx, 'C17:first-success-wins', f'peak {i}: returned {chosen}, expected {expect} (tried {[(s[3], s[4], s[5]) for s in mine]})', wit)
         if not succ and len(mine) != len(cands):
-            ctx.violation('C17:first-success-wins', f'peak {i}: gave up after {len(mine)} of {len(cands)} candidates', wit)
+            report(ctx, 'C17:first-success-wins', f'peak {i}: gave up after {len(mine)} of {len(cands)} candidates', wit)
         # --- too narrow
         pc, deg = chosen[0], chosen[1]
         k = deg + 1 + (4 if pc == 3 else 3)
         ctx.count('oracle:' + r.assessment.name)
         if len(xs) < min(d + 1 + (4 if kk == 3 else 3) for kk, d in cands) and r.assessment.name != 'window_too_narrow':
-            ctx.violation('C17:narrow-window-not-reported', f'peak {i}: {len(xs)} points, assessment {r.assessment.name}', wit)
+            report(ctx, 'C17:narrow-window-not-reported', f'peak {i}: {len(xs)} points, assessment {r.assessment.name}', wit)
         if r.assessment.name == 'window_too_narrow' and len(xs) >= k:
-            ctx.violation('C17:narrow-window-wrong', f'peak {i}: {len(xs)} points for {k} parameters reported too narrow', wit)
+            report(ctx, 'C17:narrow-window-wrong', f'peak {i}: {len(xs)} points for {k} parameters reported too narrow', wit)
         if r.assessment.name in ('failed', 'window_too_narrow'):
             continue
         # --- statistics recomputed from the returned parameters and the window data
@@ -818,7 +831,7 @@ def oracle_case(ctx, case):
         rep = {'red_chisq': float(r.red_chisq.value), 'p_value': float(r.p_value.value), 'aic': float(r.aic.value)}
         for nm, tol in (('red_chisq', 1e-12), ('p_value', 1e-9), ('aic', 1e-9 * max(1.0, abs(st['aic'])))):
             if not st['ill_conditioned'] and not close(rep[nm], st[nm], 1e-9, tol):
-                ctx.violation('C17:stats-mismatch', f'peak {i}: reported {nm}={rep[nm]!r}, recomputed {st[nm]!r}', wit)
+                report(ctx, 'C17:stats-mismatch', f'peak {i}: reported {nm}={rep[nm]!r}, recomputed {st[nm]!r}', wit)
         # --- success satisfies every requirement
         if r.assessment.name == 'success':
             loc, amp, scale = popt['peak_loc'], popt['peak_amplitude'], popt['peak_scale']
@@ -835,7 +848,7 @@ def oracle_case(ctx, case):
             }
             for nm, ok in checks.items():
                 if not ok:
-                    ctx.violation(f'C17:success-violates-requirement:{nm}', f'peak {i} marked successful but fails {nm}', wit)
+                    report(ctx, f'C17:success-violates-requirement:{nm}', f'peak {i} marked successful but fails {nm}', wit)
     # --- independence: every peak fitted alone with its own window gives the same result
     import warnings
 
@@ -849,11 +862,11 @@ def oracle_case(ctx, case):
                                   background=[BG_NAMES[d] for d in degs_], peak=[PEAK_NAMES[k - 1] for k in kinds_],
                                   fit_parameters=fp, fit_requirements=fr)[0]
             except Exception as e:  # noqa: BLE001
-                ctx.violation('C17:exception:alone', f'peak {i} alone raised {type(e).__name__}', wit)
+                report(ctx, 'C17:exception:alone', f'peak {i} alone raised {type(e).__name__}', wit)
                 continue
             a, b = canon_impl_result(alone), canon_impl_result(r)
             if (a['assessment'], a['model'], a['popt']) != (b['assessment'], b['model'], b['popt']):
-                ctx.violation('C17:results-not-independent', f'peak {i}: alone {a["assessment"]} {a["model"]}, together {b["assessment"]} {b["model"]}', wit)
+                report(ctx, 'C17:results-not-independent', f'peak {i}: alone {a["assessment"]} {a["model"]}, together {b["assessment"]} {b["model"]}', wit)
     # --- removal
     d = remove_inputs(da, results)
     before = d.values.copy()
@@ -861,10 +874,10 @@ def oracle_case(ctx, case):
     try:
         out = remove_peaks(d, results)
     except Exception as e:  # noqa: BLE001
-        ctx.violation('C17:exception:remove_peaks', f'{type(e).__name__}: {str(e)[:100]}', wit)
+        report(ctx, 'C17:exception:remove_peaks', f'{type(e).__name__}: {str(e)[:100]}', wit)
         return
     if [bits(t) for t in d.values] != [bits(t) for t in before] or [bits(t) for t in d.coords['x'].values] != [bits(t) for t in before_x]:
-        ctx.violation('C17:remove-input-modified', 'remove_peaks changed its input', wit)
+        report(ctx, 'C17:remove-input-modified', 'remove_peaks changed its input', wit)
     expect = before.copy()
     for r in results:
         if not r.success:
@@ -880,9 +893,9 @@ def oracle_case(ctx, case):
             inside |= (x >= lo) & (x < hi)
     got = out.values
     if [bits(t) for t in got[~inside]] != [bits(t) for t in before[~inside]]:
-        ctx.violation('C17:remove-outside-changed', 'a point outside every successful window changed', wit)
+        report(ctx, 'C17:remove-outside-changed', 'a point outside every successful window changed', wit)
     if [bits(t) for t in got[inside]] != [bits(t) for t in expect[inside]]:
-        ctx.violation('C17:remove-inside-wrong', 'inside a successful window the output is not data - eval_peak', wit)
+        report(ctx, 'C17:remove-inside-wrong', 'inside a successful window the output is not data - eval_peak', wit)
     # independent evaluation of the peak (own formulas)
     for r in results:
         if r.success:
@@ -893,7 +906,7 @@ def oracle_case(ctx, case):
             mine = np_peak(pc, x[sel], *pk)
             theirs = r.eval_peak(sc.array(dims=['x'], values=x[sel], unit='angstrom')).values
             if not np.allclose(mine, theirs, rtol=1e-9, atol=1e-300):
-                ctx.violation('C17:eval-peak-formula', 'eval_peak differs from the peak formula at the returned parameters', wit)
+                report(ctx, 'C17:eval-peak-formula', 'eval_peak differs from the peak formula at the returned parameters', wit)
 
 
 def targeted_cases(rng, k):
@@ -934,6 +947,212 @@ def targeted_cases(rng, k):
     return out
 
 
+
+# ---- remove_peaks on constructed results: container kinds, orders, mixes, overlapping windows ---------------------
+
+ITERABLE_KINDS = ['list', 'tuple', 'generator', 'iter', 'reversed', 'one-shot']
+NON_SUCCESS = ['failed', 'window_too_narrow', 'p_too_small', 'peak_near_edge', 'background_is_better', 'peak_too_wide']
+
+
+class OneShot:
+    """an iterable that can be traversed exactly once (like a generator, but a plain class)"""
+
+    def __init__(self, items):
+        self._items = list(items)
+        self._used = False
+
+    def __iter__(self):
+        if self._used:
+            return iter(())
+        self._used = True
+        return iter(self._items)
+
+
+def gen_remove_case(rng, idx):
+    n = rng.choice([20, 35, 60, 90])
+    k = rng.randint(1, 6)
+    mode = idx % 4
+    res = []
+    for j in range(k):
+        c = rng.uniform(0.05, 0.95)
+        h = rng.choice([0.0, 0.03, 0.08, 0.15, 0.3, 0.6])
+        res.append({'kind': rng.choice(PEAK_NAMES), 'lo': c - h, 'hi': c + h, 'amp': rng.uniform(-2, 8), 'loc': c + rng.uniform(-0.05, 0.05),
+                    'scale': math.exp(rng.uniform(math.log(0.005), math.log(0.2))), 'frac': rng.uniform(0, 1),
+                    'assessment': 'success' if rng.random() < 0.5 else rng.choice(NON_SUCCESS)})
+    if mode == 0:       # exactly one success, at position idx//4 mod k; everything before it unsuccessful
+        pos = (idx // 4) % k
+        for j, r in enumerate(res):
+            r['assessment'] = 'success' if j == pos else rng.choice(NON_SUCCESS)
+    elif mode == 1:     # first success at a chosen position, later ones mixed
+        pos = (idx // 4) % k
+        for j, r in enumerate(res):
+            if j < pos:
+                r['assessment'] = rng.choice(NON_SUCCESS)
+            elif j == pos:
+                r['assessment'] = 'success'
+    elif mode == 2:     # overlapping windows, all successful
+        for r in res:
+            r['assessment'] = 'success'
+            r['lo'], r['hi'] = 0.3 + rng.uniform(-0.2, 0.1), 0.6 + rng.uniform(-0.1, 0.3)
+    order = list(range(k))
+    rng.shuffle(order)
+    return {'idx': idx, 'n': n, 'x0': rng.choice([0.0, 1.0, -2.0]), 'span': rng.choice([1.0, 10.0]), 'np_seed': rng.getrandbits(32),
+            'results': [res[j] for j in order], 'dtype': 'float64'}
+
+
+def build_remove(case):
+    """-> (DataArray without variances, [FitResult ...]) from the parameters of the case"""
+    import numpy as np
+    import scipp as sc
+    from scippneutron.peaks import FitAssessment, FitResult
+    from scippneutron.peaks import model as M
+
+    n, x0, span = case['n'], case['x0'], case['span']
+    rs = np.random.default_rng(case['np_seed'])
+    x = np.linspace(x0, x0 + span, n)
+    y = rs.uniform(1, 50, n)
+    da = sc.DataArray(sc.array(dims=['x'], values=y, unit='counts'), coords={'x': sc.array(dims=['x'], values=x, unit='angstrom')})
+    out = []
+    for r in case['results']:
+        cls = {'gaussian': M.GaussianModel, 'lorentzian': M.LorentzianModel, 'pseudo_voigt': M.PseudoVoigtModel}[r['kind']]
+        peak = cls(prefix='peak_')
+        bkg = M.PolynomialModel(degree=1, prefix='bkg_')
+        window = sc.array(dims=['range'], values=[x0 + r['lo'] * span, x0 + r['hi'] * span], unit='angstrom')
+        if r['assessment'] in ('failed', 'window_too_narrow'):
+            out.append(FitResult.for_failure(assessment=FitAssessment[r['assessment']], peak=peak, background=bkg, window=window))
+            continue
+        popt = {'bkg_a0': sc.scalar(1.0, unit='counts'), 'bkg_a1': sc.scalar(0.1, unit='counts/angstrom'),
+                'peak_amplitude': sc.scalar(r['amp'] * span, unit='counts*angstrom'), 'peak_loc': sc.scalar(x0 + r['loc'] * span, unit='angstrom'),
+                'peak_scale': sc.scalar(r['scale'] * span, unit='angstrom')}
+        if r['kind'] == 'pseudo_voigt':
+            popt['peak_fraction'] = sc.scalar(r['frac'])
+        out.append(FitResult(popt=popt, assessment=FitAssessment[r['assessment']], peak=peak, background=bkg, window=window,
+                             message=r['assessment'], red_chisq=sc.scalar(1.0), p_value=sc.scalar(0.5), aic=sc.scalar(0.0)))
+    return da, out
+
+
+def as_iterable(kind, results):
+    """(iterable handed to remove_peaks, the results in the order that iterable yields them)"""
+    if kind == 'list':
+        return list(results), list(results)
+    if kind == 'tuple':
+        return tuple(results), list(results)
+    if kind == 'generator':
+        return (r for r in results), list(results)
+    if kind == 'iter':
+        return iter(list(results)), list(results)
+    if kind == 'reversed':
+        return reversed(list(results)), list(results)[::-1]
+    return OneShot(results), list(results)
+
+
+def remove_line(x, before, ordered):
+    toks = ['c17.remove', '1', bits(SQRT2PI), bits(math.pi), bits(SQRT2LN2), bits(GFWHM), bits(TINY), str(len(x))]
+    toks += [bits(t) for t in x] + [bits(t) for t in before] + [str(len(ordered))]
+    for r in ordered:
+        pc = PEAK_CODE[type(r.peak).__name__]
+        _, pk = popt_list({k: float(v.value) for k, v in r.popt.items()}, -1, pc)
+        toks += ['1' if r.success else '0', str(pc), bits(r.window.values[0]), bits(r.window.values[1])] + [bits(p) for p in pk]
+    return ' '.join(toks)
+
+
+def run_remove(case, kind):
+    """remove_peaks on the constructed case with `fit_results` given as `kind`"""
+    from scippneutron.peaks import remove_peaks
+
+    da, results = build_remove(case)
+    it, ordered = as_iterable(kind, results)
+    before = da.values.copy()
+    before_x = da.coords['x'].values.copy()
+    try:
+        out = remove_peaks(da, it)
+        return da, ordered, before, before_x, out.values.copy(), out, None
+    except Exception as e:  # noqa: BLE001
+        return da, ordered, before, before_x, None, None, e
+
+
+def oracle_remove_case(ctx, case):
+    """the removal clauses of the property on constructed results, for every kind of iterable"""
+    import numpy as np
+    import scipp as sc
+
+    ref = None
+    for kind in ITERABLE_KINDS:
+        da, ordered, before, before_x, got, out, exc = run_remove(case, kind)
+        wit = {'kind': 'remove', 'case': case, 'iterable': kind}
+        x = before_x
+        nsucc = sum(1 for r in ordered if r.success)
+        ctx.case(('oracle-remove', case['idx'], case['np_seed'], kind), nsucc > 0)
+        ctx.count('oracle-remove:' + kind)
+        if exc is not None:
+            report(ctx, 'C17:exception:remove_peaks', f'{type(exc).__name__}: {str(exc)[:100]} (fit_results as {kind})', wit)
+            continue
+        if [bits(t) for t in da.values] != [bits(t) for t in before] or [bits(t) for t in da.coords['x'].values] != [bits(t) for t in before_x]:
+            report(ctx, 'C17:remove-input-modified', f'remove_peaks changed its input (fit_results as {kind})', wit)
+        expect = before.copy()
+        inside = np.zeros(len(x), bool)
+        for r in ordered:
+            if not r.success:
+                continue
+            lo, hi = (float(t) for t in r.window.values)
+            sel = (x >= lo) & (x < hi)
+            inside |= sel
+            if sel.any():
+                expect[sel] = expect[sel] - r.eval_peak(sc.array(dims=['x'], values=x[sel], unit='angstrom')).values
+        if [bits(t) for t in got[~inside]] != [bits(t) for t in before[~inside]]:
+            report(ctx, 'C17:remove-outside-changed', f'a point outside every successful window changed (fit_results as {kind})', wit)
+        if [bits(t) for t in got[inside]] != [bits(t) for t in expect[inside]]:
+            j = int(np.flatnonzero(inside)[[bits(a) != bits(b) for a, b in zip(got[inside], expect[inside])].index(True)])
+            report(ctx, 'C17:remove-inside-wrong',
+                   f'fit_results as {kind}: point {j} is {got[j]!r}, data - sum of eval_peak of the successful fits is {expect[j]!r} '
+                   f'(input {before[j]!r}; {nsucc} successful of {len(ordered)})', wit)
+        # the same results in the same order must give the same output whatever the container
+        if kind in ('list',):
+            ref = [bits(t) for t in got]
+        elif kind != 'reversed' and ref is not None and [bits(t) for t in got] != ref:
+            report(ctx, 'C17:remove-depends-on-iterable-kind', f'fit_results as {kind} gives a different output than the same results as a list', wit)
+
+
+def correspond_remove_suite(ctx, cases):
+    """implementation (every iterable kind) against the Lean model (the ordered list of results)"""
+    lines, metas = [], []
+    for case in cases:
+        for kind in ITERABLE_KINDS:
+            da, ordered, before, before_x, got, out, exc = run_remove(case, kind)
+            lines.append(remove_line(before_x, before, ordered))
+            metas.append((case, kind, before, got, da.values.copy(), exc))
+    for (case, kind, before, got, caller_i, exc), out in zip(metas, ctx.driver(lines)):
+        ctx.case(('remove-suite', case['idx'], case['np_seed'], kind), True,
+                 sample={'op': 'remove', 'iterable': kind, 'assessments': [r['assessment'] for r in case['results']]})
+        ctx.count('remove-suite:' + kind)
+        if exc is not None or out.startswith('err') or out.startswith('bad'):
+            impl = err_class(exc) if exc is not None else 'ok'
+            if impl != out:
+                ctx.disagree({'op': 'remove-suite', 'iterable': kind, 'case': case}, impl, out[:100])
+            continue
+        caller_m, work_m = ([unbits(t) for t in part.split()] for part in out.split('|'))
+        bad = None
+        if [bits(t) for t in caller_i] != [bits(t) for t in caller_m]:
+            bad = 'caller buffer differs'
+        else:
+            for j, (u, w_, b0) in enumerate(zip(got, work_m, before)):
+                if bits(u) == bits(b0) and bits(w_) == bits(b0):
+                    continue
+                if (bits(u) == bits(b0)) != (bits(w_) == bits(b0)) or not close(u, w_, 1e-9, 1e-9 * max(1.0, abs(b0))):
+                    bad = f'point {j}: impl {u!r} model {w_!r} input {b0!r}'
+                    break
+        if bad:
+            ctx.disagree({'op': 'remove-suite', 'iterable': kind, 'case': case}, 'impl', 'model', bad)
+
+
+def remove_cases(ctx):
+    if ('remove', ctx.seed) not in _CASES:
+        import random
+
+        rng = random.Random(ctx.seed * 7919 + 17)
+        _CASES[('remove', ctx.seed)] = [gen_remove_case(rng, i) for i in range(ctx.n(60, 600))]
+    return _CASES[('remove', ctx.seed)]
+
 _CASES: dict = {}
 
 
@@ -944,8 +1163,8 @@ def general_cases(ctx):
 
         rng = random.Random(ctx.rng.getrandbits(64))
         _CASES[ctx.seed] = (
-            [gen_case(rng, i) for i in range(ctx.n(36, 520))],
-            targeted_cases(rng, ctx.n(16, 160)),
+            [gen_case(rng, i) for i in range(ctx.n(28, 520))],
+            targeted_cases(rng, ctx.n(12, 160)),
             rng,
         )
     return _CASES[ctx.seed][0]
@@ -969,6 +1188,8 @@ def oracle(ctx, deep):
     general = general_cases(ctx)
     _, targeted, rng = _CASES[ctx.seed]
     extra = targeted_cases(rng, 40) + [gen_case(rng, 200000 + i) for i in range(40)] if deep else []
+    for case in remove_cases(ctx):
+        oracle_remove_case(ctx, case)
     for case in corpus_cases() + rejected_cases() + targeted + general + extra:
         oracle_case(ctx, case)
 
@@ -981,7 +1202,10 @@ def replay(ctx, payload):
         return False
     key = payload.get('key')
     before = len(ctx.violations)
-    oracle_case(ctx, case)
+    if w.get('kind') == 'remove':
+        oracle_remove_case(ctx, case)
+    else:
+        oracle_case(ctx, case)
     new = ctx.violations[before:]
     for v in new:
         print('replay:', v['key'], v['what'])
